@@ -24,6 +24,14 @@ CHECKS = {
             'Trusted: rv/models/numeric.py, CPython float/Fraction/struct; decimal div compared to 18 significant digits; '
             'float/double underflow and the 2.0-vs-3.1 idiv definitions are left undecided.',
             'DESIGN.md section 4 (C06)'),
+    'C07': ('exploration',
+            'runtime reference-model monitor: F&O comparability matrix / value-space order / EBV table model + libxml2 for compatibility mode',
+            'Value comparisons over the 29x29 type matrix, general comparisons over sequences of length 0-3 with the untypedAtomic '
+            'rules, order laws on triples, the EBV table, and/or/not/if, and XPath 1.0 / compatibility-mode comparisons (against libxml2 '
+            'and an XPath 1.0 model) are evaluated by the real engine and compared with the model; outcomes the specification leaves '
+            'open (true pair + erroring pair, short-circuit, mixed timezone presence) are counted as undecided.',
+            'Trusted: rv/models/compare.py, libxml2; sequences homogeneous per side; implicit-timezone cases left to C11.',
+            'DESIGN.md section 4 (C07)'),
     'C09': ('exploration',
             'differential runtime monitor: F&O reference string model + libxml2 (XPath 1.0) + engine-only laws on generated Unicode strings',
             'Each generated call of the string functions named in the property (substring with .5/INF/NaN positions, translate, '
